@@ -1082,6 +1082,11 @@ func (ex *Exec) modified(nodes ...ast.Node) *modSet {
 			case *ast.CallExpr:
 				ms.heaps = true
 				ms.ghosts = true
+				if id, ok := ast.Unparen(x.Fun).(*ast.Ident); ok && id.Name == "close" && len(x.Args) == 1 {
+					if _, isB := ex.Info.ObjectOf(id).(*types.Builtin); isB {
+						ms.events["close:"+strings.TrimSuffix(exprText(x.Args[0]), "()")] = true
+					}
+				}
 				ex.callMods(x, ms)
 				if fn := ex.calleeOf(x); fn != nil {
 					for _, k := range hookKeys(fn) {
@@ -1133,6 +1138,8 @@ func (ex *Exec) ghostsWrittenBy(ms *modSet) map[string]bool {
 			fire = ms.events["call:"+h.Target]
 		case "send", "recv":
 			fire = ms.events[h.Kind+":"+strings.TrimSuffix(h.Target, "()")]
+		case "close":
+			fire = ms.events["close:"+strings.TrimSuffix(h.Target, "()")]
 		case "exit":
 			fire = false
 		case "after", "before":
